@@ -172,6 +172,9 @@ def poolLaws(E, cls, k, w):
                 "C02:%s:dagger-identity-on-objects" % cls, info=repr(b))
         E.check(Id(b.dom) >> b.dagger().dagger() == d,
                 "C02:%s:box-dagger-involutive" % cls, info=repr(b))
+        if cls == 'circuit':
+            E.check(bool(b.dagger().is_mixed == b.is_mixed),
+                    "C02:circuit:dagger-changes-mixedness", info=repr(b))
         E.check(d >> Id(b.cod) == d and Id(b.dom[0:0]) @ d == d
                 and d @ Id(b.dom[0:0]) == d, "C02:%s:units" % cls)
         E.check(d @ d == d @ Id(b.dom) >> Id(b.cod) @ d,
